@@ -1,13 +1,15 @@
 #!/bin/sh
-# usage: tools/try_mutant.sh <patch.diff> <tier> <ID> [ID...]   applies the patch to a scratch worktree (never /repo) and runs the checks on it
+# usage: tools/try_mutant.sh <patch.diff> <tier> <ID> [ID...]   applies the patch to a scratch worktree of its own (never /repo)
+#   and runs the checks on it; logs go to /tmp/try_<tag>_<ID>.log where <tag> is the name of the patch's directory
 P=$1; T=$2; shift 2
-WT=/tmp/wt_try
-git -C /repo worktree remove --force $WT 2>/dev/null; git -C /repo worktree prune
+TAG=$(basename $(dirname $(readlink -f $P)))
+WT=$(mktemp -d /tmp/wt_try.XXXXXX); rmdir $WT
+MOUT=$(mktemp -d /tmp/try_out.XXXXXX)
+git -C /repo worktree prune
 git -C /repo worktree add -q --detach $WT HEAD || exit 3
 git -C $WT apply "$P" || { echo "patch does not apply"; git -C /repo worktree remove --force $WT; exit 3; }
-mkdir -p /tmp/try_out
 for id in "$@"; do
-  VERIF_REPO=$WT VERIF_OUT=/tmp/try_out timeout 1000 /verif/check $id $T > /tmp/try_$id.log 2>&1; rc=$?
-  echo "== $id rc=$rc: $(grep -m1 -E 'VIOLATION|HARNESS-ERROR' /tmp/try_$id.log | cut -c1-300)"; grep -A1 -m1 VIOLATION /tmp/try_$id.log | tail -1 | cut -c1-300
+  VERIF_STOP_AT_FIRST=1 VERIF_REPO=$WT VERIF_OUT=$MOUT timeout 1500 /verif/check $id $T > /tmp/try_${TAG}_$id.log 2>&1; rc=$?
+  echo "== $TAG $id rc=$rc: $(grep -m1 -E 'VIOLATION|HARNESS-ERROR|INCONCLUSIVE' /tmp/try_${TAG}_$id.log | cut -c1-200)"; grep -A1 -m1 VIOLATION /tmp/try_${TAG}_$id.log | tail -1 | cut -c1-300
 done
-git -C /repo worktree remove --force $WT
+git -C /repo worktree remove --force $WT; rm -rf $MOUT
